@@ -57,7 +57,9 @@ def _worker(args):
         try:
             res = fork_call(run_one, (profile, seed), timeout=per_run_timeout)
         except ChildFailed as e:
-            out.append({"i": i, "seed": seed, "harness_error": str(e)[-3000:]})
+            out.append({"i": i, "seed": seed,
+                        "timeout": str(e).startswith("timeout"),
+                        "harness_error": f"run {i} (seed {seed}): " + str(e)[-3000:]})
             continue
         rec = {"i": i, "seed": seed, "digest": res["digest"],
                "steps": res["steps"], "stats": res["stats"],
@@ -121,6 +123,7 @@ def batch(prop: str, tier: str, verif_seed: int, n_runs: int | None = None,
              for a in range(0, n_runs, chunk)]
     recs = []
     harness_errors = []
+    timed_out = []
     truncated = False
     ctx = mp.get_context("fork")
     # tasks are handed out in index order, a bounded number in flight, so that
@@ -145,7 +148,12 @@ def batch(prop: str, tier: str, verif_seed: int, n_runs: int | None = None,
             done, pending = wait(pending, timeout=30, return_when=FIRST_COMPLETED)
             for f in done:
                 for r in f.result():
-                    if "harness_error" in r:
+                    if r.get("timeout"):
+                        # a session that ran into the per-run wall limit is
+                        # recorded and skipped; it is neither a violation nor a
+                        # reason to distrust the other runs
+                        timed_out.append(r)
+                    elif "harness_error" in r:
                         harness_errors.append(r)
                     else:
                         recs.append(r)
@@ -311,6 +319,9 @@ def batch(prop: str, tier: str, verif_seed: int, n_runs: int | None = None,
             "known_findings_hit": dict(known_hit),
             "violating_runs": n_viol_runs,
             "truncated_by_wall_cap": truncated,
+            "runs_killed_at_per_run_time_limit": [
+                {"run_index": r["i"], "seed": r["seed"]} for r in timed_out[:20]],
+            "runs_killed_count": len(timed_out),
             "harness_errors": len(harness_errors),
             "real_components": "all lightworks code under /repo (working tree)",
             "stubs": profile.stubs,
@@ -341,6 +352,10 @@ def batch(prop: str, tier: str, verif_seed: int, n_runs: int | None = None,
         for h in harness_errors[:5]:
             print("HARNESS-ERROR:", str(h.get("harness_error"))[-1500:], flush=True)
         return 2
+    if timed_out:
+        print(f"NOTE: {len(timed_out)} of {n_runs} sessions were stopped at the "
+              f"per-run time limit ({profile.run_timeout:.0f}s) and skipped: "
+              f"run indices {[r['i'] for r in timed_out[:10]]}", flush=True)
     if truncated:
         print(f"NOTE: soft wall budget ({wall_cap:.0f}s) reached; {len(recs)} of "
               f"{n_runs} planned runs completed", flush=True)
